@@ -1,0 +1,42 @@
+// SPDX-FileCopyrightText: 2026 The Pion community <https://pion.ly>
+// SPDX-License-Identifier: MIT
+
+//go:build verif
+
+package fmtp
+
+// Verified harnesses for the contract-based verification in /verif (build tag verif): each
+// composes the real Match implementations in both directions; its contract is the symmetry
+// (resp. case-insensitivity) clause of the property.
+
+func specSymGeneric(a, b *genericFMTP) (bool, bool) {
+	return a.Match(b), b.Match(a)
+}
+
+func specSymH264(a, b *h264FMTP) (bool, bool) {
+	return a.Match(b), b.Match(a)
+}
+
+func specSymVP9(a, b *vp9FMTP) (bool, bool) {
+	return a.Match(b), b.Match(a)
+}
+
+func specSymAV1(a, b *av1FMTP) (bool, bool) {
+	return a.Match(b), b.Match(a)
+}
+
+// specCaseGeneric: the same description under two spellings of the mime type against a third.
+func specCaseGeneric(a, a2, b *genericFMTP) (bool, bool, bool, bool) {
+	return a.Match(b), a2.Match(b), b.Match(a), b.Match(a2)
+}
+
+// specMixed: descriptions of different kinds never match, in either direction.
+func specMixed(g *genericFMTP, h *h264FMTP, v *vp9FMTP, a *av1FMTP) bool {
+	return g.Match(h) || h.Match(g) || g.Match(v) || v.Match(g) || g.Match(a) || a.Match(g) ||
+		h.Match(v) || v.Match(h) || h.Match(a) || a.Match(h) || v.Match(a) || a.Match(v)
+}
+
+// specSelfGeneric: a description matches itself.
+func specSelfGeneric(a *genericFMTP) bool {
+	return a.Match(a)
+}
